@@ -200,6 +200,9 @@ MUTANTS = [
     ('C04', 'pwl_calibration_lib.py', '  bias = tf.minimum(bias, output_max)\n\n  delta = output_max - bias\n',
      '  delta = output_max - bias\n  bias = tf.minimum(bias, output_max)\n', 'X5',
      'head-room computed from the unclipped bias'),
+    ('C05', 'pwl_calibration_layer.py', '      tiled_logits = np.tile(initial_logits, self.units)',
+     '      tiled_logits = np.repeat(initial_logits, self.units)', 'E7',
+     'per-unit rows of the initial logits scrambled'),
     # ---- neutral variants (must stay silent)
     ('C08', 'lattice_lib.py', '    average = (layers[i] + layers[i + 1]) / 2.0', '    average = 0.5 * (layers[i] + layers[i + 1])',
      None, 'N: average written as 0.5 * sum'),
